@@ -128,3 +128,26 @@ Proof.
   fold s a in E1, E2. rewrite E1 in Hp. rewrite E2 in Hc. split; assumption.
 Qed.
 Print Assumptions C01_source_count_pages.
+
+(* ---- the depth-first enumeration, on the code translated from the source on every run (GenTrieD.v: LRUTrie.dfs_iter with
+   its explicit stack, pages_iter).  For EVERY history, on any storage object holding the trie file of the state reached, the
+   translated pages_iter never fails and yields, with their crawled marks, a permutation of the pages of the SPECIFICATION
+   (each exactly once). *)
+From Traph Require GenTrieDDfs.
+Theorem C01_source_pages_iter : forall d rs h, wf_rules rs -> Forall wf_op h ->
+  let s := run d rs h in let a := srun d rs h in
+  forall sg, trep (TraceDefs.files_of s) sg ->
+  exists items sg', py_trie_pages_iter sg = Some (items, sg') /\ trep (TraceDefs.files_of s) sg' /\
+    Permutation (map (fun it => (snd it, GenTrieW.py_node_is_crawled (fst it))) items) (a_pages a) /\
+    NoDup (map snd items).
+Proof.
+  intros d rs h H1 H2 s a sg Hrep.
+  pose proof (StoreFacts2.run_Inv18 d rs h H2) as Hinv. fold s in Hinv.
+  pose proof (StoreFacts2.run_root_first d rs h) as Hroot. fold s in Hroot.
+  destruct (GenTrieDDfs.py_trie_pages_iter_spec s Hinv sg Hroot Hrep) as (items & sg' & E & Hrep' & Hm).
+  exists items, sg'. split; [exact E|]. split; [exact Hrep'|]. split.
+  - rewrite Hm. exact (C01_pages_perm d rs h H1 H2).
+  - pose proof (C01_pages_nodup d rs h H1 H2) as Hn. cbv zeta in Hn. fold s in Hn. rewrite <- Hm in Hn.
+    rewrite map_map in Hn. exact Hn.
+Qed.
+Print Assumptions C01_source_pages_iter.
